@@ -170,8 +170,9 @@ def run_world_prop(prop, tier, seed, replay):
 # ------------------------------------------------------------------------------------------------
 import pipe_sched
 MC_SCHED = {
-    "quick": [("MCSchedule2.cfg", "all schedules of <=2 tasks over 11 task kinds x 8 world contents, every execution order")],
+    "quick": [("MCSchedule.cfg", "all schedules of <=3 tasks over 11 task kinds (view kinds, filters, optional views, resources, entry views) x 8 world contents, every execution order")],
     "thorough": [("MCSchedule.cfg", "all schedules of <=3 tasks over 11 task kinds (view kinds, filters, optional views, resources, entry views) x 8 world contents, every execution order"),
+                 ("MCSchedule4.cfg", "all schedules of <=4 tasks over 7 task kinds x 4 world contents, every execution order"),
                  ("MCScheduleDup.cfg", "SELF-TEST: the pre-fix duplicate-key behaviour must violate NoConflictingOverlap")],
 }
 SCHED_INV = {"C07": ["ExactlyOnce", "SeqEquivalent"], "C08": ["NoConflictingOverlap"], "C12": ["GreedyParallel", "Termination"]}
